@@ -722,6 +722,51 @@ def rule_v6_header_order(chk, db):
         chk.verdict(why is None, "V6", "header-view-order:%s" % nm, x.loc(bi), "the header view is not ordered by name only and stably: %s" % why)
 
 
+def rule_v7_own_header_first(chk, db):
+    """the selection of the signed headers takes a header's value from the request's own header lines; the caller-supplied fallback (`:authority`
+    for `host` on HTTP/2) is consulted only for a name the view has no line for.  If the fallback came first, a `Host` line that the router
+    obeys would not be the `host` the signature covers."""
+    from .. import writes
+    hs = [b for n, b in db.bodies.items() if b.crate == "s3s" and b.kind == "AssocFn" and "ordered_headers::OrderedHeaders" in n and "::tests::" not in n and
+          any("Fn(" in b.locals[l] and "Option<" in b.locals[l] for l in range(1, b.argc + 1))]
+    chk.floor("V7", len(hs), 1, "header selections with a caller-supplied fallback")
+    for b in hs:
+        fb = [l for l in range(1, b.argc + 1) if "Fn(" in b.locals[l] and "Option<" in b.locals[l]]
+        calls = []
+        lookups = set()
+        for bi, t in b.calls():
+            d = callee_def(t)
+            if "ops::function::Fn" in d and short(d) in ("call", "call_mut", "call_once") and t["args"]:
+                r = flow.resolve_place(b, t["args"][0])
+                if r is not None and r[0] in fb:
+                    calls.append(bi)
+            elif "ordered_headers::OrderedHeaders" in d and short(d) in ("get_all_pairs", "get_all", "get_unique", "get", "contains") or short(d) in ("binary_search_by_key", "binary_search_by", "partition_point"):
+                lookups.add(bi)
+        if not calls:
+            chk.fail("V7", "own-header-first@%s" % short(b.name), b.loc(), "the fallback parameter of %s is never consulted here (handed on?): cannot decide" % short(b.name))
+            continue
+        loops = writes.innermost_loops(b)
+        for cbi in calls:
+            heads = loops.get(cbi, ())
+            head = heads[0] if heads else 0        # outermost loop (one iteration per signed name), else the entry
+            r = flow.reach(b, [head], removed=frozenset(flow.back_edges(b)), stop_blocks=frozenset(lookups))
+            first = cbi in r and cbi not in lookups
+            # consulted only under a condition established after the lookup (not unconditionally for every name)
+            cond = False
+            for lb in lookups:
+                rr = flow.reach(b, [lb], removed=frozenset(flow.back_edges(b)), stop_blocks=frozenset([cbi]))
+                if cbi in rr:
+                    for x in rr:
+                        if x != cbi and b.blocks[x]["term"]["k"] == "switch" and cbi in flow.reach(b, [x], removed=frozenset(flow.back_edges(b))):
+                            outs = [tb for _, tb in b.succ_edges(x)]
+                            if any(cbi not in flow.reach(b, [o], removed=frozenset(flow.back_edges(b))) for o in outs):
+                                cond = True
+            chk.verdict(not first and cond, "V7", "own-header-first@%s#%d" % (short(b.name), calls.index(cbi)), b.loc(cbi),
+                        "the fallback of %s is consulted %s: a header line of the request (e.g. `Host`, which routing obeys) can be replaced in the signed "
+                        "headers by the fallback value (`:authority`)" % (short(b.name), "before the request's own header lines are looked up" if first else
+                                                                          "for every name, not only where the view has no line"))
+
+
 def run_common(chk, db, kinds, builders):
     """V1-V4 for the verifiers of the given kinds + TAINT⁺ inside the builders"""
     roles = Roles(db)
@@ -746,6 +791,9 @@ def run_common(chk, db, kinds, builders):
     chk.guard("V5", rule_v5_header_view, db)
     chk.rule("V6", "header view order: sorted by name only, stably (values of a repeated header stay in arrival order)")
     chk.guard("V6", rule_v6_header_order, db)
+    if kinds & {"v4-header", "v4-presigned"}:
+        chk.rule("V7", "signed headers come from the request's own header lines; the fallback (`:authority`) only for a name without a line")
+        chk.guard("V7", rule_v7_own_header_first, db)
     for fn in builders:
         skip = ()
         chk.guard("V4", lambda c, f=fn: param_reaches_return(db, f, c, "V4", "builder:" + short(f) + ("@v2" if "sig_v2" in f else "")))
